@@ -195,6 +195,10 @@ func (p *Peer) SendTransactions(index types.ChainIndex, txnHashes []types.Hash25
 	return r.Transactions, r.V2Transactions, err
 }
 
+// errInvalidCheckpoint is returned by SendCheckpoint when the peer's answer is
+// not a valid checkpoint for the requested index.
+var errInvalidCheckpoint = errors.New("invalid checkpoint")
+
 // SendCheckpoint requests a checkpoint from the peer. The checkpoint is
 // validated.
 func (p *Peer) SendCheckpoint(index types.ChainIndex, n *consensus.Network, timeout time.Duration) (consensus.State, types.Block, error) {
@@ -203,11 +207,17 @@ func (p *Peer) SendCheckpoint(index types.ChainIndex, n *consensus.Network, time
 	if err == nil {
 		r.State.Network = n
 		if r.Block.V2 == nil || len(r.Block.MinerPayouts) != 1 {
-			err = errors.New("checkpoint is not a v2 block")
+			err = fmt.Errorf("%w: not a v2 block", errInvalidCheckpoint)
 		} else if r.Block.ID() != index.ID {
-			err = errors.New("checkpoint has wrong index")
+			err = fmt.Errorf("%w: wrong index", errInvalidCheckpoint)
 		} else if r.Block.V2.Commitment != r.State.Commitment(r.Block.MinerPayouts[0].Address, r.Block.Transactions, r.Block.V2Transactions()) {
-			err = errors.New("checkpoint has wrong commitment")
+			err = fmt.Errorf("%w: wrong commitment", errInvalidCheckpoint)
+		} else if verr := consensus.ValidateBlock(r.State, r.Block, consensus.V1BlockSupplement{}); verr != nil {
+			// neither the block ID nor the commitment covers the whole body
+			// (e.g. the miner payout value or the v2 height), and the state
+			// need not be the block's parent state: callers derive the state
+			// they validate later blocks against from this pair
+			err = fmt.Errorf("%w: %w", errInvalidCheckpoint, verr)
 		}
 	}
 	return r.State, r.Block, err
